@@ -1051,4 +1051,53 @@ Proof.
   rewrite hd_skipN_ranked. replace (m <? m) with false by lia. reflexivity.
 Qed.
 
+(* ---- the set-bit iterator under any sequence of next / next_back calls *)
+
+Lemma q_it_drive pat : forall it j k, it_repr it j k ->
+  it_drive md sv pat it = Ok (deque_run (seg Vs j k) pat).
+Proof.
+  induction pat as [|b t IH]; intros it j k Hit; [reflexivity|].
+  cbn [it_drive]. destruct b.
+  - (* next_back *)
+    destruct (N.lt_ge_cases j k) as [Hjk|Hjk].
+    + destruct (q_it_back it j k Hit Hjk) as [it' [Hb Hit']]. rewrite Hb. cbn [bind].
+      rewrite (IH it' j (k - 1) Hit'). cbn [bind]. rewrite (seg_snoc Vs j k Hjk), deque_back_snoc. reflexivity.
+    + rewrite (q_it_back_none it j k Hit Hjk). cbn [bind]. rewrite (IH it j k Hit). cbn [bind].
+      rewrite (seg_nil Vs j k Hjk). reflexivity.
+  - (* next *)
+    destruct (N.lt_ge_cases j k) as [Hjk|Hjk].
+    + destruct (q_it_next it j k Hit Hjk) as [it' [Hb Hit']]. rewrite Hb. cbn [bind].
+      rewrite (IH it' (j + 1) k Hit'). cbn [bind]. rewrite (seg_cons Vs j k Hjk). reflexivity.
+    + rewrite (q_it_next_none it j k Hit Hjk). cbn [bind]. rewrite (IH it j k Hit). cbn [bind].
+      rewrite (seg_nil Vs j k Hjk). reflexivity.
+Qed.
+
+Lemma q_one_iter_drive pat : it_drive md sv pat (sv_one_iter sv) = Ok (deque_run (vs_ranked Vs) pat).
+Proof. rewrite (q_it_drive pat _ 0 m q_one_iter), vs_ranked_seg. reflexivity. Qed.
+
+Lemma q_successor_drive v pat :
+  (let* it := sv_successor sp md sv v in it_drive md sv pat it) = Ok (deque_run (vs_succ Vs v) pat).
+Proof.
+  destruct (q_successor_ok v) as [it [Hs Hit]]. rewrite Hs. cbn [bind].
+  rewrite (q_it_drive pat _ _ _ Hit), (vs_succ_eq Vs v Hsorted), skipN_ranked_seg. reflexivity.
+Qed.
+
+Lemma q_predecessor_drive v pat :
+  (let* it := sv_predecessor sp md sv v in it_drive md sv pat it) = Ok (deque_run (vs_pred Vs v) pat).
+Proof.
+  destruct (q_predecessor_ok v) as [it [Hs Hit]]. rewrite Hs. cbn [bind].
+  rewrite (q_it_drive pat _ _ _ Hit), (vs_pred_eq Vs v Hsorted). unfold pred_index. cbn zeta.
+  destruct (N.eqb_spec (vs_rank Vs (v + 1)) 0) as [Hz|Hz]; [rewrite seg_nil by lia; reflexivity|].
+  rewrite skipN_ranked_seg. reflexivity.
+Qed.
+
+Lemma q_select_iter_drive r pat :
+  (let* it := sv_select_iter sp md sv r in it_drive md sv pat it) = Ok (deque_run (skipN (vs_ranked Vs) r) pat).
+Proof.
+  destruct (q_select_iter r) as [it [Hs Hit]]. rewrite Hs. cbn [bind].
+  rewrite (q_it_drive pat _ _ _ Hit), skipN_ranked_seg.
+  destruct (N.le_gt_cases r m) as [Hr|Hr]; [replace (N.min r m) with r by lia; reflexivity|].
+  replace (N.min r m) with m by lia. rewrite !seg_nil by lia. reflexivity.
+Qed.
+
 End Queries.
